@@ -38,6 +38,11 @@ def hm(key, msg):
     return hmac_mod.new(key, msg, hashlib.sha256).digest()
 
 
+# file names Tor has to escape in PROTOCOLINFO: spaces, quotes, and backslashes directly before a letter or digit that would be an
+# escape sequence of its own (\n \t \r \1 \x) if the path were unescaped twice or in the wrong order
+WEIRD_NAMES = ['cookie file "x" \\y', 'run\\tor', 'a\\nb', 'c\\rd', 'e\\101', 'f\\\\g', 'sp  ace ', "quo'te\\", 'x\\x41', '"', 'tab\there']
+
+
 def tor_escape(path):
     return '"' + path.replace('\\', '\\\\').replace('"', '\\"') + '"'
 
@@ -81,11 +86,14 @@ class Server:
                 raise ValueError('no password for you')
             fn = count(boom)
         # cookie file
+        self.weird_name = WEIRD_NAMES[case.get('wname', 0) % len(WEIRD_NAMES)]
         ck = case['cookie']
         self.cookie_data = None
         self.cookie_line = ''
         if ck != 'nofile':
-            name = 'cookie file "x" \\y' if ck == 'len32-weirdpath' else 'control_auth_cookie'
+            # a name Tor has to escape: spaces, quotes, and backslashes directly before letters / digits that would be an escape
+            # sequence of their own (\n \t \r \0 \1 \x) if the path were unescaped twice
+            name = self.weird_name if ck == 'len32-weirdpath' else 'control_auth_cookie'
             path = os.path.join(tmp, name)
             if ck == 'ioerror':
                 os.mkdir(path)
@@ -227,12 +235,12 @@ def gen_cases(rng, tier):
     if tier == 'thorough':
         for ms, ck, pw in itertools.product(mls, COOKIES, PWS):
             for sc in scripts:
-                yield {'methods': ms, 'cookie': ck, 'pw': pw, 'script': list(sc)}
+                yield {'methods': ms, 'cookie': ck, 'pw': pw, 'script': list(sc), 'wname': rng.randrange(len(WEIRD_NAMES))}
     else:
         for _ in range(700):
             ck = rng.choice(COOKIES) if rng.random() < 0.5 else rng.choice(['len32', 'len32-weirdpath'])
             sc = list(rng.choice(scripts)) if rng.random() < 0.6 else ['ok', rng.choice(['chal-good', 'chal-good', 'chal-wrong'] + list(VARIANTS))] + ['ok'] * 6
-            yield {'methods': rng.choice(mls), 'cookie': ck, 'pw': rng.choice(PWS), 'script': sc}
+            yield {'methods': rng.choice(mls), 'cookie': ck, 'pw': rng.choice(PWS), 'script': sc, 'wname': rng.randrange(len(WEIRD_NAMES))}
 
 
 def cookie_bytes(ck):
